@@ -3,10 +3,11 @@
 # Like try_mutant.sh but fully isolated: the patch is applied to a scratch worktree of /repo
 # (/tmp/wt-trial), the harness is copied to /tmp/verif-trial with its path dependencies pointing
 # at that worktree and its own target directory, and evidence / replays go to /tmp/verif-trial.
+# TRIAL_TAG=<name> selects another pair of scratch directories so two trials can run side by side.
 # Neither /repo nor /verif is touched, so it can run while other checks use them.
 set -u
 PATCH="$1"; TIER="$2"; shift 2
-WT=/tmp/wt-trial; TR=/tmp/verif-trial
+TAG="${TRIAL_TAG:-trial}"; WT=/tmp/wt-$TAG; TR=/tmp/verif-$TAG
 if [ ! -d "$WT" ]; then git -C /repo worktree add --detach "$WT" HEAD >/dev/null 2>&1 || { echo "cannot create worktree"; exit 2; }; fi
 git -C "$WT" checkout -q --detach "$(git -C /repo rev-parse HEAD)" 2>/dev/null
 git -C "$WT" reset -q --hard HEAD; git -C "$WT" clean -fdq -- src common precompile tests 2>/dev/null
